@@ -76,7 +76,7 @@ Section JUMPS.
     jump_shape ib ia = true -> In T (targets lv ia c) ->
     exists j t, nth_error (labels_of (i_args ia)) j = Some T /\ nth_error (labels_of (i_args ib)) j = Some t /\ In t (targets lv ib c).
   Proof.
-    unfold jump_shape. intros H. apply andb_true_iff in H as [H Hargs]. apply andb_true_iff in H as [Hop Hc].
+    unfold jump_shape, jnz_cond_ok. intros H. apply andb_true_iff in H as [H Hargs]. apply andb_true_iff in H as [Hop Hc].
     apply String.eqb_eq in Hop. pose proof (labels_shape _ _ Hargs) as HLL. unfold targets. rewrite <- Hop.
     destruct (String.eqb (i_op ib) "jmp").
     - destruct (i_args ia) as [|[| |la] [|]]; simpl; try tauto. intros [HT|[]]; subst.
@@ -104,7 +104,7 @@ Section JUMPS.
     jump_shape ib ia = true -> In t (targets lv ib c) ->
     exists j T, nth_error (labels_of (i_args ia)) j = Some T /\ nth_error (labels_of (i_args ib)) j = Some t /\ In T (targets lv ia c).
   Proof.
-    unfold jump_shape. intros H. apply andb_true_iff in H as [H Hargs]. apply andb_true_iff in H as [Hop Hc].
+    unfold jump_shape, jnz_cond_ok. intros H. apply andb_true_iff in H as [H Hargs]. apply andb_true_iff in H as [Hop Hc].
     apply String.eqb_eq in Hop. pose proof (labels_shape _ _ Hargs) as HLL. unfold targets. rewrite <- Hop.
     destruct (String.eqb (i_op ib) "jmp").
     - destruct (i_args ib) as [|[| |lb] [|]]; simpl; try tauto. intros [HT|[]]; subst.
@@ -366,4 +366,228 @@ Section CHAIN.
           -- rewrite E, app_length. simpl. lia.
           -- now apply jump_total_is_jump.
   Qed.
+
+  Lemma pos_corr a off md b cs kb ib :
+    sits a off md b cs -> nth_error (nth_block f b) kb = Some ib -> (cs <> [] -> S kb < List.length (nth_block f b))%nat ->
+    exists ia, nth_error (nth_block g a) (off + kb) = Some ia /\
+      ((cs = [] /\ S kb = List.length (nth_block f b) /\ is_jump ib = true /\ jump_shape ib ia = true /\
+        S (off + kb) = List.length (nth_block g a)) \/ icorr md ib ia = true).
+  Proof.
+    intros Hs Hb Hc. destruct cs as [|b' cs].
+    - destruct (pos_end _ _ _ _ Hs) as [HL HP]. destruct (HP _ _ Hb) as [ia [Ha Hx]]. exists ia. split; auto.
+      destruct (Nat.eqb (S kb) (List.length (nth_block f b))) eqn:E1; simpl in Hx; auto.
+      destruct (is_jump ib) eqn:E2; auto. apply Nat.eqb_eq in E1. left. repeat split; auto. lia.
+    - destruct (pos_mid _ _ _ _ _ _ Hs) as [pre [lst [ps [E [_ [_ [_ HP]]]]]]].
+      specialize (Hc ltac:(congruence)). rewrite E, app_length in Hc. simpl in Hc.
+      rewrite E, nth_error_app1 in Hb by lia. destruct (HP _ _ Hb) as [ia [Ha Hx]]. eauto.
+  Qed.
+
+  Lemma icorr_nonphi md ib ia : icorr md ib ia = true -> is_phi ib = false -> ia = ib /\ is_jump ib = false.
+  Proof.
+    unfold icorr. intros H Hp. rewrite Hp in H. apply andb_true_iff in H as [H1 H2]. apply negb_true_iff in H1.
+    apply inst_eqb_eq in H2. auto.
+  Qed.
+  Lemma icorr_phi_joint ps ib ia : icorr (Some ps) ib ia = true -> is_phi ib = true ->
+    exists o v, i_outs ib = [o] /\ ia = mkI "assign" [v] [o] /\ ps <> [] /\ (forall p, In p ps -> phi_src (i_args ib) p = Some v).
+  Proof.
+    unfold icorr. intros H Hp. rewrite Hp in H. destruct (i_outs ib) as [|o [|]]; try discriminate.
+    destruct (i_args ia) as [|v [|]] eqn:Ea; try discriminate.
+    apply andb_true_iff in H as [H H3]. apply andb_true_iff in H as [H1 H2]. apply inst_eqb_eq in H1.
+    exists o, v. repeat split; auto.
+    - intros E. subst. discriminate.
+    - intros p Hi. rewrite forallb_forall in H3. specialize (H3 _ Hi). now apply opt_operand_eqb_eq in H3.
+  Qed.
+  Lemma icorr_phi_head ib ia : icorr None ib ia = true -> is_phi ib = true ->
+    exists o, i_outs ib = [o] /\ i_outs ia = [o] /\ (is_phi ia = true \/ (i_op ia = "assign" /\ exists v, i_args ia = [v])).
+  Proof.
+    unfold icorr. intros H Hp. rewrite Hp in H. destruct (i_outs ib) as [|o [|]]; try discriminate.
+    apply andb_true_iff in H as [H1 H2]. apply (list_eqb_eq _ N_eqb_eq') in H1. exists o. repeat split; auto.
+    apply orb_true_iff in H2 as [H2|H2]; auto. right. apply andb_true_iff in H2 as [H2 H3]. apply String.eqb_eq in H2.
+    split; auto. destruct (i_args ia) as [|v [|]]; try discriminate. eauto.
+  Qed.
+
+  Lemma head_phi_corr a pa pb kb ib ia :
+    nth_block g a <> [] -> predrel a None pa pb -> nth_error (nth_block f a) kb = Some ib -> is_phi ib = true ->
+    nth_error (nth_block g a) kb = Some ia ->
+    exists a0 p', pa = Some a0 /\ pb = Some p' /\
+      if is_phi ia then phi_src (i_args ia) a0 = phi_src (i_args ib) p'
+      else exists v, i_args ia = [v] /\ phi_src (i_args ib) p' = Some v.
+  Proof.
+    intros Hne [[H1 [H2 H3]] | [a0 [p' [H1 [H2 H3]]]]] Hb Hp Ha.
+    - subst. destruct HC_parts as [_ [_ [H0 _]]]. exfalso.
+      assert (existsb is_phi (nth_block f 0) = true); [|congruence].
+      apply existsb_exists. exists ib. split; auto. eapply nth_error_In; eauto.
+    - exists a0, p'. split; auto. split; auto.
+      destruct (phis_in_ok_nth _ _ _ _ _ _ H3 Hb Hp) as [ia' [Ha' Hc]]. rewrite Ha in Ha'. inversion Ha'; subst. exact Hc.
+  Qed.
+
+  (* the edge taken by corresponding jumps *)
+  Lemma edge_corr a off md b kb ib ia j T t :
+    sits a off md b [] -> nth_error (nth_block f b) kb = Some ib -> S kb = List.length (nth_block f b) -> is_jump ib = true ->
+    nth_error (nth_block g a) (off + kb) = Some ia -> S (off + kb) = List.length (nth_block g a) ->
+    nth_error (labels_of (i_args ia)) j = Some T -> nth_error (labels_of (i_args ib)) j = Some t ->
+    exists p', thread f (List.length f) b t T = Some p' /\ nth_block g T <> [] /\
+               phis_in_ok (nth_block f T) (nth_block g T) a p' = true.
+  Proof.
+    intros Hs Hb HLb Hj Ha HLa HT Ht.
+    assert (Hne : nth_block g a <> []) by (intros E; rewrite E in Ha; destruct (off + kb)%nat; discriminate).
+    destruct HC_parts as [_ [_ [_ H]]]. destruct (H _ Hne) as [_ He]. rewrite (sits_last _ _ _ _ _ Hs) in He. simpl in He.
+    unfold edges_ok in He. rewrite (last_inst_nth _ _ _ Ha HLa), (last_inst_nth _ _ _ Hb HLb), Hj in He.
+    pose proof (forall2b_nth _ _ _ _ _ _ He HT Ht) as Hx. unfold edge_ok in Hx.
+    destruct (thread f (List.length f) b t T) as [p'|]; try discriminate. apply andb_true_iff in Hx as [H1 H2].
+    exists p'. repeat split; auto. intros E. rewrite E in H1. discriminate.
+  Qed.
+
+  Lemma Rc_in_S a off md b cs kb pa pb c m :
+    sits a off md b cs -> (cs <> [] -> S (S kb) <= List.length (nth_block f b))%nat -> predrel a md pa pb ->
+    Rc (Run a (S (off + kb)) pa c m) (Run b (S kb) pb c m).
+  Proof. intros Hs Hk Hp. rewrite <- Nat.add_succ_r. eapply Rc_in; eauto. Qed.
+
+  (* one step of the merged function from a caught-up pair *)
+  Lemma fwd_canon a off md b cs kb pa pb c m ev X' :
+    sits a off md b cs -> (cs <> [] -> S kb < List.length (nth_block f b))%nat -> predrel a md pa pb ->
+    (exists ib, nth_error (nth_block f b) kb = Some ib) ->
+    step g (Run a (off + kb) pa c m) ev X' ->
+    exists Y', steps f (Run b kb pb c m) ev Y' /\ Rc X' Y'.
+  Proof.
+    intros Hs Hc Hp [ib Hb] Hst.
+    destruct (pos_corr _ _ _ _ _ _ _ Hs Hb Hc) as [ia [Ha [[Ecs [HLb [Hj [Hsh HLa]]]] | Hic]]].
+    - (* terminating jump *)
+      subst cs.
+      assert (Hja : is_jump ia = true).
+      { unfold jump_shape in Hsh. apply andb_true_iff in Hsh as [Hsh _]. apply andb_true_iff in Hsh as [Hop _].
+        apply String.eqb_eq in Hop. unfold is_jump in *. now rewrite <- Hop. }
+      destruct (jump_step_inv _ _ _ _ _ _ _ _ _ _ _ _ Ha Hja Hst) as [He [_ [T [HT HX]]]]. subst ev X'.
+      destruct (jump_shape_targets lv _ _ _ _ Hsh HT) as [j [t [H1 [H2 H3]]]].
+      destruct (edge_corr _ _ _ _ _ _ _ _ _ _ Hs Hb HLb Hj Ha HLa H1 H2) as [p' [Hth [Hne Hph]]].
+      eexists. split; [apply steps_one; eapply s_jump; eauto|].
+      eapply Rc_tr; eauto. { now apply sits_head. } simpl. right. eauto.
+    - destruct (is_phi ib) eqn:Ephi.
+      + destruct md as [ps|].
+        * destruct (icorr_phi_joint _ _ _ Hic Ephi) as [o [v [Ho [Eia [Hne Hall]]]]]. subst ia.
+          destruct (assign_step_inv _ _ _ _ _ _ _ _ _ _ _ _ _ _ Ha eq_refl eq_refl eq_refl Hst) as [He HX]. subst ev X'.
+          destruct Hp as [q [Hq Hin]]. subst pb.
+          eexists. split; [apply steps_one; eapply phi_step; eauto|]. eapply Rc_in_S; [exact Hs | intros Hn; specialize (Hc Hn); lia | simpl; eauto].
+        * destruct (sits_head_inv _ _ _ _ Hs) as [Eo [Eb [Ecs Hne]]]. subst off b.
+          destruct (icorr_phi_head _ _ Hic Ephi) as [o [Ho [Hoa Hk]]].
+          destruct (head_phi_corr _ _ _ _ _ _ Hne Hp Hb Ephi Ha) as [a0 [p' [Epa [Epb Hcorr]]]]. subst pa pb.
+          destruct Hk as [Hk | [Hop [v Hv]]].
+          -- rewrite Hk in Hcorr. destruct (phi_step_inv _ _ _ _ _ _ _ _ _ _ _ _ Ha Hk Hst) as [q [o' [v [Hq [Ho' [Hsrc [He HX]]]]]]].
+             inversion Hq; subst q. rewrite Hoa in Ho'. inversion Ho'; subst o'. subst ev X'. rewrite Hcorr in Hsrc.
+             eexists. split; [apply steps_one; eapply phi_step; eauto|]. eapply Rc_in_S; [exact Hs | intros Hn; specialize (Hc Hn); lia | auto].
+          -- assert (Hnp : is_phi ia = false) by (unfold is_phi; rewrite Hop; reflexivity). rewrite Hnp in Hcorr.
+             destruct Hcorr as [v' [Hv' Hsrc]]. rewrite Hv in Hv'. inversion Hv'; subst v'.
+             destruct (assign_step_inv _ _ _ _ _ _ _ _ _ _ _ _ _ _ Ha Hop Hv Hoa Hst) as [He HX]. subst ev X'.
+             eexists. split; [apply steps_one; eapply phi_step; eauto|]. eapply Rc_in_S; [exact Hs | intros Hn; specialize (Hc Hn); lia | auto].
+      + destruct (icorr_nonphi _ _ _ Hic Ephi) as [E Hnj]. subst ia.
+        destruct (inst_step_inv _ _ _ _ _ _ _ _ _ _ _ _ Ha Ephi Hnj Hst) as [outv [m' [He HX]]]. subst X'.
+        eexists. split; [apply steps_one; eapply s_inst; eauto|]. eapply Rc_in_S; [exact Hs | intros Hn; specialize (Hc Hn); lia | auto].
+  Qed.
+
+  Lemma chain_fwd : sim M osem lv g f Rc.
+  Proof.
+    intros X Y ev X' HR Hst.
+    assert (exists a off md b cs kb pa pb c m,
+              X = Run a (off + kb) pa c m /\ sits a off md b cs /\ (cs <> [] -> S kb <= List.length (nth_block f b))%nat /\
+              predrel a md pa pb /\ steps f Y [] (Run b kb pb c m)) as
+        [a [off [md [b [cs [kb [pa [pb [c [m [EX [Hs [Hk [Hp Hpre]]]]]]]]]]]]]].
+    { destruct HR as [a off md b cs kb pa pb c m Hs Hk Hp | a off md b cs pa pe e p' n c m Hs Hth Hp].
+      - do 10 eexists. split; [reflexivity|]. repeat split; eauto. constructor.
+      - exists a, off, md, b, cs, 0%nat, pa, (Some p'), c, m. rewrite Nat.add_0_r. repeat split; auto.
+        + intros Hn. destruct cs; [congruence|]. eapply sits_mid_nonempty; eauto.
+        + eapply thread_steps; eauto. }
+    subst X. destruct (step_pos' _ _ _ _ _ _ _ _ _ _ _ Hst) as [ia Hia].
+    destruct (canon cs a off md b kb pa pb c m ia Hs Hk Hp Hia) as
+        [off2 [md2 [b2 [cs2 [kb2 [pb2 [Hst2 [Hs2 [He [Hp2 [Hib Hc2]]]]]]]]]]].
+    rewrite He in Hst.
+    destruct (fwd_canon _ _ _ _ _ _ _ _ _ _ _ _ Hs2 Hc2 Hp2 Hib Hst) as [Y' [HY HR']].
+    exists Y'. split; auto. eapply steps_nil_trans; [exact Hpre|]. eapply steps_nil_trans; eauto.
+  Qed.
+
+  (* one step of the original function from a pair related by Rc_in *)
+  Lemma bwd_in a off md b cs kb pa pb c m ev Y' :
+    sits a off md b cs -> (cs <> [] -> S kb <= List.length (nth_block f b))%nat -> predrel a md pa pb ->
+    step f (Run b kb pb c m) ev Y' ->
+    exists X', steps g (Run a (off + kb) pa c m) ev X' /\ Rc X' Y'.
+  Proof.
+    intros Hs Hk Hp Hst. destruct (step_pos' _ _ _ _ _ _ _ _ _ _ _ Hst) as [ib Hb].
+    assert (Hcase : (cs <> [] -> S kb < List.length (nth_block f b))%nat \/
+                    (exists b' cs' pre lst ps, cs = b' :: cs' /\ nth_block f b = pre ++ [lst] /\ kb = List.length pre /\
+                       jump_total lst = true /\ joint_preds f b (labels_of (i_args lst)) b' = Some ps)).
+    { destruct cs as [|b' cs']; [left; congruence|].
+      destruct (pos_mid _ _ _ _ _ _ Hs) as [pre [lst [ps [E [Hjt [Hj _]]]]]].
+      specialize (Hk ltac:(congruence)). rewrite E, app_length in *. simpl in *.
+      destruct (Nat.eq_dec kb (List.length pre)); [right | left; intros _; lia].
+      exists b', cs', pre, lst, ps. auto. }
+    destruct Hcase as [Hc | [b' [cs' [pre [lst [ps [Ecs [Efb [Ekb [Hjt Hj]]]]]]]]]].
+    - destruct (pos_corr _ _ _ _ _ _ _ Hs Hb Hc) as [ia [Ha [[Ecs [HLb [Hj [Hsh HLa]]]] | Hic]]].
+      + subst cs.
+        destruct (jump_step_inv _ _ _ _ _ _ _ _ _ _ _ _ Hb Hj Hst) as [He [_ [t [Ht HY]]]]. subst ev Y'.
+        destruct (jump_shape_targets_r lv _ _ _ _ Hsh Ht) as [j [T [H1 [H2 H3]]]].
+        destruct (edge_corr _ _ _ _ _ _ _ _ _ _ Hs Hb HLb Hj Ha HLa H1 H2) as [p' [Hth [Hne Hph]]].
+        assert (Hja : is_jump ia = true).
+        { unfold jump_shape in Hsh. apply andb_true_iff in Hsh as [Hsh _]. apply andb_true_iff in Hsh as [Hop _].
+          apply String.eqb_eq in Hop. unfold is_jump in *. now rewrite <- Hop. }
+        eexists. split; [apply steps_one; eapply s_jump; eauto|].
+        eapply Rc_tr; eauto. { now apply sits_head. } simpl. right. eauto.
+      + destruct (is_phi ib) eqn:Ephi.
+        * destruct (phi_step_inv _ _ _ _ _ _ _ _ _ _ _ _ Hb Ephi Hst) as [q [o [v [Hq [Ho [Hsrc [He HY]]]]]]]. subst pb ev Y'.
+          destruct md as [ps|].
+          -- destruct (icorr_phi_joint _ _ _ Hic Ephi) as [o' [v' [Ho' [Eia [Hne Hall]]]]]. subst ia.
+             rewrite Ho in Ho'. inversion Ho'; subst o'. destruct Hp as [q' [Hq' Hin]]. inversion Hq'; subst q'.
+             rewrite (Hall _ Hin) in Hsrc. inversion Hsrc; subst v'.
+             eexists. split; [apply steps_one; eapply (assign_step M osem lv g); eauto; reflexivity|]. eapply Rc_in_S; [exact Hs | intros Hn; specialize (Hc Hn); lia | simpl; eauto].
+          -- destruct (sits_head_inv _ _ _ _ Hs) as [Eo [Eb [Ecs Hne]]]. subst off b.
+             destruct (icorr_phi_head _ _ Hic Ephi) as [o' [Ho' [Hoa Hk']]]. rewrite Ho in Ho'. inversion Ho'; subst o'.
+             destruct (head_phi_corr _ _ _ _ _ _ Hne Hp Hb Ephi Ha) as [a0 [p' [Epa [Epb Hcorr]]]]. subst pa. inversion Epb; subst p'.
+             destruct Hk' as [Hk' | [Hop [v' Hv]]].
+             ++ rewrite Hk' in Hcorr. rewrite <- Hcorr in Hsrc.
+                eexists. split; [apply steps_one; eapply phi_step; eauto|]. eapply Rc_in_S; [exact Hs | intros Hn; specialize (Hc Hn); lia | auto].
+             ++ assert (Hnp : is_phi ia = false) by (unfold is_phi; rewrite Hop; reflexivity). rewrite Hnp in Hcorr.
+                destruct Hcorr as [v2 [Hv2 Hsrc2]]. rewrite Hv in Hv2. inversion Hv2; subst v2.
+                rewrite Hsrc in Hsrc2. inversion Hsrc2; subst v'.
+                eexists. split; [apply steps_one; eapply (assign_step M osem lv g); eauto|]. eapply Rc_in_S; [exact Hs | intros Hn; specialize (Hc Hn); lia | auto].
+        * destruct (icorr_nonphi _ _ _ Hic Ephi) as [E Hnj]. subst ia.
+          destruct (inst_step_inv _ _ _ _ _ _ _ _ _ _ _ _ Hb Ephi Hnj Hst) as [outv [m' [He HY]]]. subst Y'.
+          eexists. split; [apply steps_one; eapply s_inst; eauto|]. eapply Rc_in_S; [exact Hs | intros Hn; specialize (Hc Hn); lia | auto].
+    - (* the jump that was merged away: the merged function does not move *)
+      subst cs kb. rewrite Efb, nth_app_last' in Hb. inversion Hb; subst ib.
+      assert (Hb' : nth_error (nth_block f b) (List.length pre) = Some lst) by (rewrite Efb; apply nth_app_last').
+      destruct (jump_step_inv _ _ _ _ _ _ _ _ _ _ _ _ Hb' (jump_total_is_jump _ Hjt) Hst) as [He [_ [t [Ht HY]]]]. subst ev Y'.
+      destruct (joint_preds_spec _ _ _ _ Hj t (targets_labels lv _ _ _ Ht)) as [p [Hth Hin]].
+      eexists. split; [constructor|].
+      eapply Rc_tr; [eapply sits_next; eauto | eauto | simpl; eauto].
+  Qed.
+
+  Lemma chain_bwd : sim M osem lv f g (fun y x => Rc x y).
+  Proof.
+    intros Y X ev Y' HR Hst.
+    destruct HR as [a off md b cs kb pa pb c m Hs Hk Hp | a off md b cs pa pe e p' n c m Hs Hth Hp].
+    - eapply bwd_in; eauto.
+    - destruct n as [|n]; simpl in Hth; destruct (N.eqb e b) eqn:E; try discriminate.
+      + apply N.eqb_eq in E. inversion Hth; subst. rewrite <- (Nat.add_0_r off).
+        eapply bwd_in; eauto. intros Hn. destruct cs; [congruence|]. eapply sits_mid_nonempty; eauto.
+      + apply N.eqb_eq in E. inversion Hth; subst. rewrite <- (Nat.add_0_r off).
+        eapply bwd_in; eauto. intros Hn. destruct cs; [congruence|]. eapply sits_mid_nonempty; eauto.
+      + destruct (empty_jmp f e) as [t|] eqn:Ee; try discriminate. destruct (empty_jmp_spec _ _ Ee) as [ins [Hb Hu]].
+        destruct (uncond_target_spec lv ins t c Hu) as [Hj Ht].
+        assert (Hn : nth_error (nth_block f e) 0 = Some ins) by (rewrite Hb; reflexivity).
+        destruct (jump_step_inv _ _ _ _ _ _ _ _ _ _ _ _ Hn Hj Hst) as [He [_ [t' [Ht' HY]]]]. subst ev Y'.
+        rewrite Ht in Ht'. destruct Ht' as [Ht'|[]]. subst t'.
+        eexists. split; [constructor|]. eapply Rc_tr; eauto.
+  Qed.
+
+  Theorem chain_bisimilar : bisimilar M osem lv g f.
+  Proof.
+    exists Rc. split; [|split; [apply chain_fwd | apply chain_bwd]].
+    intros c m. destruct HC_parts as [_ [Hg0 _]].
+    apply (Rc_in 0%N 0%nat None 0%N (chain_of ch 0) 0%nat None None c m).
+    - now apply sits_head.
+    - intros Hn. destruct (chain_of ch 0) eqn:E; [congruence|]. eapply sits_mid_nonempty. rewrite <- E. now apply sits_head.
+    - simpl. left. auto.
+  Qed.
 End CHAIN.
+
+Theorem chain_check_sound f g ch :
+  chain_check f g ch = true -> forall M osem lv, bisimilar M osem lv g f.
+Proof. intros H M osem lv. eapply chain_bisimilar; eauto. Qed.
